@@ -1,7 +1,7 @@
 import Glom.Py.PV
 import Glom.Spec.C02
 import Glom.Model.C02Env
-import Glom.Model.C02Prim
+import Glom.Model.C02Heap
 /-
   C02 driver: one JSON case in, one JSON verdict out.
 
@@ -10,18 +10,27 @@ import Glom.Model.C02Prim
                                | {"tuple": [E…]} | {"dict": [[E, E]…]}
                                | {"call": {"args": [E…], "kwargs": [[name, E]…]}}
           "impl":   {"ok": PV} | {"pae": {"idx": n, "exc": cls, "glom": b}} | {"other": cls},
-          "direct": {"ok": PV} | {"fail": {"k": n, "kind": name, "exc": cls}} | {"raised": cls} }
+          "impl_after": PV,                       -- the target object after glom.glom(target, expr)
+          "direct": {"ok": PV} | {"fail": {"k": n, "kind": name, "exc": cls}} | {"raised": cls},
+          "direct_after": PV }                    -- the target object after the chain applied directly
+
+  The target tree is allocated in a heap (every list / tuple / dict / object gets
+  an address: no two paths of a decoded tree reach the same object, which is
+  what the harness' `dec` builds); literals of the expression are spelled
+  structurally (a literal list is what `arg_val` rebuilds member by member; a
+  literal slice is one object allocated up front).  Observations are the
+  *trees* values denote in the heap left behind (`hView`).
 
   `impl` is what glom.glom(target, expr) did; `direct` is what the same chain of
-  operations did when the harness applied it to the target with Python's own
-  operators.  Three-way comparison:
-    * `holds`  = checkC02 (the theorem's checker) on the implementation's observation,
-                 against the reference outcome computed here in Lean with `pvPrim`;
-    * the Lean reference must equal Python's `direct` outcome (this validates the
-      kernel's primitives; if they differ Python's outcome is the reference and
-      the case is reported as a disagreement);
+  operations did when the harness applied it to a fresh copy of the target with
+  Python's own operators.  Three-way comparison:
+    * `holds`  = checkC02's two conjuncts (outcome, target afterwards) on the implementation's
+                 observation, against the reference outcome computed here in Lean with `hPrim`;
+    * the Lean reference must equal Python's `direct` outcome and final target (this
+      validates the kernel's primitives; if they differ Python's outcome is the reference
+      and the case is reported as a disagreement);
     * `agree`  = the code-shaped model (`record` + `tEval` on the regenerated
-                 tables) produces the implementation's observation.
+                 tables) produces the implementation's observation and final target.
 -/
 namespace Glom.C02.Driver
 open Lean Glom Glom.C02
@@ -51,16 +60,94 @@ partial def exprOfJson (j : Json) : Except String (E PV) := do
     return .cargs args kwargs
   else throw s!"bad expr {j.compress}"
 
-def obsOfJson (j : Json) : Except String (Obs PV) := do
-  if let .ok v := j.getObjVal? "ok" then return .ok (← pvOfJson v)
+/-- allocate a tree in the heap; `none`: a kind of value the heap instance does not model -/
+partial def allocPV (p : PV) (s : HS) : Option (Val × HS) :=
+  match ofScalarPV p with
+  | some v => some (v, s)
+  | none =>
+    match p with
+    | .list xs => do
+      let (vs, s1) ← allocAll xs s
+      return s1.alloc (.list "list" vs)
+    | .tuple xs => do
+      let (vs, s1) ← allocAll xs s
+      return s1.alloc (.tuple "tuple" vs)
+    | .dict es => do
+      let (ks, s1) ← allocAll (es.map (·.1)) s
+      let (vs, s2) ← allocAll (es.map (·.2)) s1
+      return s2.alloc (.dict "dict" (ks.zip vs))
+    | .obj c attrs => do
+      let (vs, s1) ← allocAll (attrs.map (·.2)) s
+      return s1.alloc (.inst c ((attrs.map (·.1)).zip vs))
+    | _ => none
+where
+  allocAll (xs : List PV) (s : HS) : Option (List Val × HS) :=
+    match xs with
+    | [] => some ([], s)
+    | x :: r => do
+      let (v, s1) ← allocPV x s
+      let (vs, s2) ← allocAll r s1
+      return (v :: vs, s2)
+
+/-- the expression over heap values: a literal list / tuple / dict is spelled structurally
+    (`arg_val` rebuilds it on every evaluation), a literal slice is allocated once -/
+partial def exprToHeap (e : E PV) (s : HS) : Option (E Val × HS) :=
+  match e with
+  | .lit p =>
+    match ofScalarPV p with
+    | some v => some (.lit v, s)
+    | none =>
+      match p with
+      | .list xs => exprToHeap (.list (xs.map .lit)) s
+      | .tuple xs => exprToHeap (.tuple (xs.map .lit)) s
+      | .dict es => exprToHeap (.dict (es.map (fun kv => (.lit kv.1, .lit kv.2)))) s
+      | .obj "slice" _ => (allocPV p s).map (fun r => (.lit r.1, r.2))
+      | _ => none
+  | .texpr steps => do
+    let (as, s1) ← many (steps.map (·.2)) s
+    return (.texpr ((steps.map (·.1)).zip as), s1)
+  | .spec x => do
+    let (x', s1) ← exprToHeap x s
+    return (.spec x', s1)
+  | .list xs => do
+    let (ys, s1) ← many xs s
+    return (.list ys, s1)
+  | .tuple xs => do
+    let (ys, s1) ← many xs s
+    return (.tuple ys, s1)
+  | .dict es => do
+    let (ks, s1) ← many (es.map (·.1)) s
+    let (vs, s2) ← many (es.map (·.2)) s1
+    return (.dict (ks.zip vs), s2)
+  | .cargs args kwargs => do
+    let (as, s1) ← many args s
+    let (ks, s2) ← many (kwargs.map (·.2)) s1
+    return (.cargs as ((kwargs.map (·.1)).zip ks), s2)
+where
+  many (xs : List (E PV)) (s : HS) : Option (List (E Val) × HS) :=
+    match xs with
+    | [] => some ([], s)
+    | x :: r => do
+      let (y, s1) ← exprToHeap x s
+      let (ys, s2) ← many r s1
+      return (y :: ys, s2)
+
+abbrev W := Option PV
+
+def obsOfJson (j : Json) : Except String (Obs W) := do
+  if let .ok v := j.getObjVal? "ok" then return .ok (some (← pvOfJson v))
   else if let .ok p := j.getObjVal? "pae" then
     return .pae (← p.getObjValAs? Nat "idx") (← p.getObjValAs? String "exc")
       (← p.getObjValAs? Bool "glom")
   else if let .ok c := j.getObjValAs? String "other" then return .other c
   else throw s!"bad obs {j.compress}"
 
-def obsToJson : Obs PV → Json
-  | .ok v => Json.mkObj [("ok", pvToJson v)]
+def wToJson : W → Json
+  | some v => pvToJson v
+  | none => Json.mkObj [("cyclic", true)]
+
+def obsToJson : Obs W → Json
+  | .ok v => Json.mkObj [("ok", wToJson v)]
   | .pae k c g => Json.mkObj [("pae", Json.mkObj [("idx", k), ("exc", c), ("glom", g)])]
   | .other c => Json.mkObj [("other", c)]
 
@@ -69,22 +156,22 @@ def kindName (k : Kind) : String :=
   | some (n, _) => n
   | none => "other"
 
-def refOfJson (j : Json) : Except String (Except RefErr PV) := do
-  if let .ok v := j.getObjVal? "ok" then return .ok (← pvOfJson v)
+def refOfJson (j : Json) : Except String (Except RefErr W) := do
+  if let .ok v := j.getObjVal? "ok" then return .ok (some (← pvOfJson v))
   else if let .ok p := j.getObjVal? "fail" then
     return .error (.opFail (← p.getObjValAs? Nat "k") (Kind.ofString (← p.getObjValAs? String "kind"))
       ⟨← p.getObjValAs? String "exc"⟩)
   else if let .ok c := j.getObjValAs? String "raised" then return .error (.raised ⟨c⟩)
   else throw s!"bad direct {j.compress}"
 
-def refToJson : Except RefErr PV → Json
-  | .ok v => Json.mkObj [("ok", pvToJson v)]
+def refToJson : Except RefErr W → Json
+  | .ok v => Json.mkObj [("ok", wToJson v)]
   | .error (.opFail k kind e) =>
     Json.mkObj [("fail", Json.mkObj [("k", k), ("kind", kindName kind), ("exc", e.cls)])]
   | .error (.raised e) => Json.mkObj [("raised", e.cls)]
   | .error .unsupported => Json.mkObj [("unsupported", true)]
 
-def refEq : Except RefErr PV → Except RefErr PV → Bool
+def refEq : Except RefErr W → Except RefErr W → Bool
   | .ok a, .ok b => a == b
   | .error a, .error b => a == b
   | _, _ => false
@@ -95,47 +182,80 @@ def lastDunder : E PV → String
     | none => "T"
   | _ => "?"
 
-def primUnsupported : Except RefErr PV → Bool
+def primUnsupported : Except RefErr W → Bool
   | .error (.opFail _ _ e) => e.cls == "<unsupported>"
   | .error (.raised e) => e.cls == "<unsupported>"
   | _ => false
 
+def isMutator (n : String) : Bool := n == "pop" || n == "append" || n == "setdefault"
+
+/-- does the expression name a method that changes its object? (for the histogram only) -/
+partial def mentionsMutator : E PV → Bool
+  | .lit (.str n) => isMutator n
+  | .lit _ => false
+  | .texpr steps => steps.any (fun st => mentionsMutator st.2)
+  | .spec x => mentionsMutator x
+  | .list xs | .tuple xs => xs.any mentionsMutator
+  | .dict es => es.any (fun kv => mentionsMutator kv.1 || mentionsMutator kv.2)
+  | .cargs args kwargs => args.any mentionsMutator || kwargs.any (fun kv => mentionsMutator kv.2)
+
 def run (j : Json) : Except String Json := do
-  let target ← pvOfJson (← j.getObjVal? "target")
-  let e ← exprOfJson (← j.getObjVal? "expr")
+  let targetPV ← pvOfJson (← j.getObjVal? "target")
+  let ePV ← exprOfJson (← j.getObjVal? "expr")
   let implObs ← obsOfJson (← j.getObjVal? "impl")
+  let implAfter : W := some (← pvOfJson (← j.getObjVal? "impl_after"))
   let direct ← refOfJson (← j.getObjVal? "direct")
+  let directAfter : W := some (← pvOfJson (← j.getObjVal? "direct_after"))
   let F := genFacts
-  let leanRef := refEval pvPrim e target
+  let some (target, s00) := allocPV targetPV { heap := [] }
+    | return Json.mkObj [("skip", true), ("why", "target outside the heap instance")]
+  let some (e, s0) := exprToHeap ePV s00
+    | return Json.mkObj [("skip", true), ("why", "literal outside the heap instance")]
+  let rr := refEval hPrim e target s0
+  let leanRef : Except RefErr W := viewRes hView rr
+  let leanAfter : W := hView rr.2 target
   if refEq leanRef (.error .unsupported) then
     return Json.mkObj [("skip", true), ("why", "expression outside the C02 fragment")]
-  let modelObs : Obs PV := match record F pvPrim.none e with
-    | some o => observe F (tEval F pvPrim o target)
-    | none => .other "<no overload>"
+  if let some why := rr.2.bad then
+    return Json.mkObj [("skip", true), ("why", why)]
+  let mr : Except Err Val × HS := match record F hPrim.none e with
+    | some o => tEval F hPrim o target s0
+    | none => (.error (.raised ⟨"<no overload>"⟩), s0)
+  let modelPair := observeS F hView target mr
+  let modelObs := modelPair.1
+  let modelAfter := modelPair.2
+  let stateful := if mentionsMutator ePV then "mut:" else ""
   if primUnsupported leanRef then
     -- the kernel has no definition for a primitive used here: only the property is
     -- evaluated, against Python's own outcome
-    let holds := checkObs direct implObs
+    let holds := checkObs direct implObs && directAfter == implAfter
     return Json.mkObj [("agree", true), ("holds", holds), ("model", obsToJson modelObs),
       ("lean_ref", refToJson leanRef), ("branch", "prim-outside-kernel"),
       ("why", if holds then "" else "implementation differs from the chain applied directly in Python")]
-  let primOk := refEq leanRef direct
+  if leanAfter.isNone || modelAfter.isNone || refEq leanRef (.ok none) || modelObs == .ok none then
+    return Json.mkObj [("skip", true), ("why", "the result or the target is not a tree any more (cyclic)")]
+  let primOk := refEq leanRef direct && leanAfter == directAfter
   let ref := if primOk then leanRef else direct
-  let holds := checkObs ref implObs
-  let modelHolds := checkObs leanRef modelObs
-  let agree := primOk && modelHolds && modelObs == implObs
+  let refAfter := if primOk then leanAfter else directAfter
+  let holds := checkObs ref implObs && refAfter == implAfter
+  let modelHolds := checkC02 hView hPrim e target s0 modelPair
+  let agree := primOk && modelHolds && modelObs == implObs && modelAfter == implAfter
   let why :=
-    (if holds then "" else "property fails on the implementation's observation; ") ++
+    (if checkObs ref implObs then "" else "property fails on the implementation's observation; ") ++
+    (if refAfter == implAfter then "" else "the target is left in another state than by the chain applied directly; ") ++
     (if primOk then "" else "Lean primitives differ from Python's direct evaluation; ") ++
     (if modelHolds then "" else "model fails its own checker; ") ++
-    (if modelObs == implObs then "" else "model differs from implementation; ")
+    (if modelObs == implObs then "" else "model differs from implementation; ") ++
+    (if modelAfter == implAfter then "" else "model leaves the target in another state than the implementation; ")
   let branch := match leanRef with
-    | .ok _ => s!"ok:{lastDunder e}"
-    | .error (.opFail _ kind x) => s!"fail:{kindName kind}:{x.cls}"
-    | .error (.raised x) => s!"argfail:{x.cls}"
+    | .ok _ => s!"{stateful}ok:{lastDunder ePV}"
+    | .error (.opFail _ kind x) => s!"{stateful}fail:{kindName kind}:{x.cls}"
+    | .error (.raised x) => s!"{stateful}argfail:{x.cls}"
     | .error .unsupported => "unsupported"
   return Json.mkObj [("agree", agree), ("holds", holds), ("model_holds", modelHolds),
     ("prim_ok", primOk), ("wf", WF F), ("model", obsToJson modelObs),
-    ("lean_ref", refToJson leanRef), ("branch", branch), ("why", why)]
+    ("model_after", wToJson modelAfter), ("changed", !(leanAfter == some targetPV)),
+    ("lean_ref", refToJson leanRef), ("lean_after", wToJson leanAfter),
+    ("branch", branch), ("why", why)]
 
 end Glom.C02.Driver
